@@ -4,6 +4,9 @@ CONSTANTS
   Stable = TRUE
   KeySet = {}
   ValSet = {}
+  HashVals = {}
+  IntKeys = {}
+  NegKeys = {}
   ShardCounts = {}
 CONSTRAINT Mark
 POSTCONDITION Accepted
